@@ -160,6 +160,12 @@ class C11(Property):
         return out
 
     def observe(self, case):
+        for i in case['order']:
+            try:
+                build_ontology(case['onts'][i]).validate()
+            except Exception:
+                # the generator produced an ontology that is not valid by itself: not a case
+                return {'unbuildable': True}
         res, A, B = self.run(case['onts'], case['order'], case['paths'])
         if 'err' in res:
             return res
@@ -226,7 +232,12 @@ class C11(Property):
             res['reverse'] = {'err': rr['err']} if 'err' in rr else self.expected_view(case, rr, case['order'][::-1])
         return res
 
+    def fill_undecided(self, case, obs, pred):
+        return obs if obs.get('unbuildable') else pred
+
     def oracle(self, case, obs):
+        if obs.get('unbuildable'):
+            return None
         if 'err' in obs:
             if obs.get('silently_accepted'):
                 return 'an incompatible pair of definitions was accepted by update() instead of raising'
